@@ -15,4 +15,8 @@ a82f9f4 C20
 6b46e2e C20
 20874d9 C05
 15b6b37 C05
+3cfb02f C20
+04e88f3 C20
+4ac3266 C20
+32dce03 C20
 LIST
